@@ -41,7 +41,7 @@ def exec_number(rec):
                 if rec.get('via') == 'dofs':
                     return DC.number_event(mesh, elem, Dofs(mesh, elem), None, rec.get('drift', 0))
                 b = CellBasis(mesh, elem, intorder=rec.get('intorder', 1))
-            return DC.number_event(mesh, elem, b, getattr(b, 'doflocs', None), rec.get('drift', 0))
+            return DC.number_event(mesh, elem, b, getattr(b, 'doflocs', None), rec.get('drift', 0), with_locs=True)
         if merr:
             ev, err = None, merr
         else:
